@@ -79,7 +79,7 @@ def flit(t, v):
     """Fortran literal for a native value."""
     if t.cls == "int":
         k = t.fkind
-        if v < 0 and (-v - 1) in (A.INT_MAX, A.LONG_MAX, 32767):
+        if v < 0 and (-v - 1) in (A.INT_MAX, A.LONG_MAX, 32767, 127):
             return "(-%d_%s - 1_%s)" % (-v - 1, k, k)
         return "%d_%s" % (v, k) if v >= 0 else "(-%d_%s)" % (-v, k)
     s = repr(float(v))
@@ -193,8 +193,8 @@ def res_code(res, call, extra):
         return ["logical :: zz_r"], ["zz_r = " + call, "call obs_l(zz_r)"]
     if isinstance(res, A.CharRes):
         return ["character :: zz_r"], ["zz_r = " + call, "call obs_i(int(ichar(zz_r), C_LONG_LONG))"]
-    if isinstance(res, (A.CStrRes, A.StrRes)) and res.flen:
-        return ["character(len=%d) :: zz_r" % res.flen], ["zz_r = " + call, "call obs_s(zz_r)"]
+    # a +len(n) result is received in a deferred-length variable too: it takes the length the function result really has
+    # (a fixed-length receiver would pad or cut whatever comes back to n and hide a result of another length)
     if isinstance(res, (A.CStrRes, A.StrRes)):
         return ["character(len=:), allocatable :: zz_r"], ["zz_r = " + call, "call obs_s(zz_r)"]
     if isinstance(res, A.ArrRes2):
